@@ -64,6 +64,22 @@ def build(spec, pool):
             return lambda args, options: len(5)
         if kind == 'raise_value':
             return lambda args, options: int('x')
+        if kind == 'raise_empty':           # an exception without any message text
+            def _empty(args, options):
+                raise RuntimeError()
+            return _empty
+        if kind == 'raise_multiline':
+            def _multi(args, options):
+                raise RuntimeError('first line\nsecond line')
+            return _multi
+        if kind == 'raise_assert':
+            def _assert(args, options):
+                assert args is None
+            return _assert
+        if kind == 'raise_nonascii':
+            def _na(args, options):
+                raise KeyError('cl\u00e9 \u2603')
+            return _na
         if kind == 'raise_runtime':
             def _rt(args, options):
                 raise BareScriptRuntimeError('host says no')
